@@ -32,7 +32,7 @@ RULE = (
     "IntegerPacking stage (all sign/byte-count variants x every ByteArray type, plus explicit src_type/src_size/"
     "origin variants) on full-palette arrays of length <=2(3), core-palette arrays of length 3(4) and run/"
     "alternation patterns; 'chain' = every sequence of 2..3(4) stages over the 8 stage symbols on core-palette "
-    "arrays and patterns; 'ipbig' = IntegerPacking of +-2^31-scale values; 'fixed'/'iq' = FixedPoint / "
+    "arrays and patterns (the longer the chain, the shorter the longest array: exact limits under bounds); 'ipbig' = IntegerPacking of +-2^31-scale values; 'fixed'/'iq' = FixedPoint / "
     "IntervalQuantization (factor, interval and src_type variants) followed by every integer chain of length "
     "<=1(2) on float32/float64 arrays over a palette relative to the step; 'floatba' = ByteArray(auto/float32/"
     "float64) on float arrays; 'string' = StringArray with every pair of listed data/offset chains and given/"
@@ -448,9 +448,14 @@ def run_int_shard(shard, ctx):
     tier, seed = ctx.tier, ctx.seed
     idx = 0
     if g == "ba":
-        lengths = (0, 1, 2, 3) if tier == "quick" else (0, 1, 2, 3, 4)
         chains = [[B()]] + [[B(t)] for t in INT_TCS]
-        for vals in int_arrays_full(dtype, lengths):
+        if tier == "quick":
+            arrs = int_arrays_full(dtype, (0, 1, 2, 3))
+        elif dtype == "int64":  # 26^4 arrays would dominate the tier
+            arrs = itertools.chain(int_arrays_full(dtype, (0, 1, 2, 3)), products(core_palette(dtype, seed), (4,)))
+        else:
+            arrs = int_arrays_full(dtype, (0, 1, 2, 3, 4))
+        for vals in arrs:
             idx += 1
             if idx % parts != part:
                 continue
@@ -468,15 +473,20 @@ def run_int_shard(shard, ctx):
             for ch in single_variants(len(vals), vals[0] if vals else 0, dtype):
                 int_case(ctx, dtype, vals, ch, g)
     elif g == "chain":
-        chains = [c + [B()] for c in all_chains((2, 3))]
+        chains2 = [c + [B()] for c in all_chains((2,))]
+        chains3 = [c + [B()] for c in all_chains((3,))]
         chains4 = [c + [B()] for c in all_chains((4,))] if tier == "thorough" else []
+        max3 = 3 if tier == "quick" else 5  # longest array sent through the 512 three-stage chains
         for vals in chain_arrays(dtype, tier, seed):
             idx += 1
             if idx % parts != part:
                 continue
-            for ch in chains:
+            for ch in chains2:
                 int_case(ctx, dtype, vals, ch, g)
-            if len(vals) <= 3:
+            if len(vals) <= max3:
+                for ch in chains3:
+                    int_case(ctx, dtype, vals, ch, g)
+            if len(vals) <= 2:
                 for ch in chains4:
                     int_case(ctx, dtype, vals, ch, g)
     elif g == "ipbig":
@@ -771,7 +781,10 @@ def run_float_shard(shard, ctx):
     elif g == "iq":
         setting = IQ_SETTINGS[shard["setting"]]
         pal = iq_palette(setting, seed)
-        arrs = products(pal, (0, 1, 2) if tier == "quick" else (0, 1, 2, 3))
+        if tier == "quick":
+            arrs = products(pal, (0, 1, 2))
+        else:
+            arrs = itertools.chain(products(pal, (0, 1, 2)), products(pal[:6] + pal[7:9] + pal[11:12], (3,)))
         tails = int_tails(1)
         for xs in uniq_arrays(arrs, dtype):
             idx += 1
@@ -989,9 +1002,11 @@ def run_string_shard(shard, ctx):
         idx += 1
         if idx % parts != part:
             continue
+        full = len(strs) < maxlen  # the longest arrays get the 8 diagonal pairs only
         for dn in names:
             for on in names:
-                string_case(ctx, strs, "derived", dn, on, pal)
+                if full or dn == on:
+                    string_case(ctx, strs, "derived", dn, on, pal)
         for tk in ("given_same", "given_superset", "given_missing"):
             if tk == "given_missing" and not strs:
                 continue
@@ -1609,22 +1624,23 @@ def bounds(tier):
     return {
         "int_dtypes": INT_DTYPES,
         "int_palette_sizes_full": {d: len(full_palette(d)) for d in INT_DTYPES},
-        "ba_array_len": "0..3" if q else "0..4",
+        "ba_array_len": "0..3" if q else "0..4 (int64: full 0..3 + core 4)",
         "single_array_len": "full 0..2, core 3, patterns 4" if q else "full 0..3, core 4, patterns 5-6",
         "single_stage_variants": "8 symbols x 7 ByteArray types + %d explicit-parameter variants"
         % len(single_variants(1, 0, "int32")),
         "chain_len": "2..3" if q else "2..4",
-        "chain_arrays": "core 0..2, patterns 3-4" if q else
-        "length-2/3 chains: core 0..2, patterns 3-5; length-4 chains: core 0..2, patterns 3",
+        "chain_arrays": "2-stage chains: core 0..2, patterns 3-4; 3-stage chains: core 0..2, patterns 3" if q else
+        "2/3-stage chains: core 0..2, patterns 3-5; 4-stage chains: core 0..2",
         "fixed_factors": FACTORS,
         "fixed_array_len": "palette(19) 0..2, core(6) 3" if q else "palette(19) 0..3, core(6) 4",
         "fixed_tail_len": "<=1 (+ length 2 for factor 1000, src_type auto)" if q else
         "<=1 on all arrays; length 2 on palette 0..2 + core 3",
         "iq_settings": IQ_SETTINGS,
-        "iq_array_len": "0..2" if q else "0..3",
+        "iq_array_len": "0..2" if q else "0..2 + 9-value sub-palette 3",
         "floatba_array_len": "0..2" if q else "0..3",
         "string_array_len": "0..4" if q else "0..5",
-        "string_chain_pairs": len(STR_CHAINS) ** 2,
+        "string_chain_pairs": "all %d pairs below the longest length, the 8 diagonal pairs at the longest"
+        % len(STR_CHAINS) ** 2,
         "compress_int_len": "0..3" if q else "0..4 (int64: full 0..3 + core 4)",
         "compress_float_len": "0..3" if q else "0..4",
         "compress_tolerances": TOLS,
